@@ -324,12 +324,52 @@ def _d_body(di, pos, ins):
     return True
 
 
+# ------------------------------------------------------------------ C03.f neighbouring cells do not leak into each other
+PAIR_POOL = (cells.Note('8', dots=1, pitch='c'), cells.Note('', mark='', pitch='dd', decs=((3, 'q'),)), cells.Rest(''), cells.Note('4', pitch='e', acc='-'),
+             cells.Note('', pitch='cc', acc='n', decs=((3, 'L'),)), cells.Rest('2', dots=1), cells.Note('', pitch='GG', decs=((3, 'q'),)),
+             cells.Note('', pitch='f', acc='#'), cells.Note('16', dots=1, pitch='gg', acc='#', decs=((3, 'J'),)),
+             cells.Chord((cells.Note('4', pitch='c'), cells.Note('4', pitch='e'))), cells.Bar(number='7', type='||'))
+
+
+def ob_f(i: int, j: int, arr: int) -> bool:
+    n = len(PAIR_POOL)
+    assume(0 <= i < n and 0 <= j < n and 0 <= arr < 3)
+    return _f_body(choose(i, n), choose(j, n), choose(arr, 3))
+
+
+@native
+def _f_body(i, j, arr):
+    a, b = PAIR_POOL[i], PAIR_POOL[j]
+    if isinstance(a, cells.Bar) != isinstance(b, cells.Bar) and arr == 1:
+        return True            # a barline line holds barlines in every spine
+    if arr == 0:       # consecutive rows of one spine
+        text = '**kern\n' + a.source() + '\n' + b.source() + '\n*-\n'
+        exp = [[cells.export_cell(a, 'ekern')], [cells.export_cell(b, 'ekern')]]
+    elif arr == 1:     # neighbouring spines of one row
+        text = '**kern\t**kern\n' + a.source() + '\t' + b.source() + '\n*-\t*-\n'
+        exp = [[cells.export_cell(a, 'ekern'), cells.export_cell(b, 'ekern')]]
+    else:              # second spine, row below
+        text = '**kern\t**kern\n' + a.source() + '\t4c\n4d\t' + b.source() + '\n*-\t*-\n'
+        if isinstance(a, cells.Bar) or isinstance(b, cells.Bar):
+            return True
+        exp = [[cells.export_cell(a, 'ekern'), '4@c'], ['4@d', cells.export_cell(b, 'ekern')]]
+    doc, errs = kp.loads(text)
+    check(not errs, f'import errors {[str(e) for e in errs]} on {text!r}')
+    got = cells.parse_grid(kp.dumps(doc, encoding=kp.Encoding.eKern))[1:-1]
+    check(got == exp, f'{text!r}: exported cells {got}, each cell on its own is {exp} (content leaked between neighbouring cells)')
+    return True
+
+
 def _desc_b(grid, k):
     idx = slots.unrank(_dims(grid), k)
     return {'cell': (G.plain, G.marks, G.one_dec, G.disp_note, G.rest)[grid](idx).source()}
 
 
 OBLIGATIONS = [
+    Ob(id='C03.f', fn=ob_f, title='a cell\'s export does not depend on the cell parsed before it (durationless notes, bare rests, chords, barlines)',
+       shard_of=lambda i, j, arr: i, shards={'quick': 4, 'thorough': 4}, budget_s={'quick': 120, 'thorough': 600},
+       witnesses=[{'i': 0, 'j': 1, 'arr': 0}], min_confirmed=200, enumerated='ordered pair from an 11-cell pool x arrangement (rows of one spine, neighbouring spines, diagonal)',
+       bounds={'quick': '11 x 11 ordered pairs x 3 arrangements', 'thorough': 'same'}),
     Ob(id='C03.a', fn=ob_a, title='non-note cells verbatim: arbitrary text behind a stubbed spine importer',
        shard_of=lambda kind, s, col: kind, shards={'quick': 13, 'thorough': 13}, budget_s={'quick': 170, 'thorough': 1800},
        witnesses=[{'kind': 0, 's': 'la', 'col': 0}, {'kind': 12, 's': 'x', 'col': 1}], min_confirmed=26,
